@@ -30,3 +30,6 @@ import SwcVerif.Props.C18Gen
 #print axioms RefineDsu.script_refines
 #print axioms RefineDsu.script_refines_init
 #print axioms C18.generated_dsu_refines_partition
+#print axioms RefineCheckers.getDsu_refines
+#print axioms C18.generated_getDsu_eq_model
+#print axioms C18.generated_getDsu_total
